@@ -3,7 +3,7 @@
 (* attempts for the same name, each with a fault script.                         *)
 EXTENDS PullCore
 
-CONSTANTS MaxAttempts, MaxFaults, Pre     \* Pre: "none" | "old" (an older version of the model is installed)
+CONSTANTS MaxAttempts, MaxFaults, Pre     \* Pre: "none" | "old" (an older version of the model is installed) | "dup" (the manifest lists a layer twice)
 Pairs == UNION {{<<s, x>> : x \in FaultsOf(s)} : s \in Slots}
 FaultSets == {F \in UNION {kSubset(k, Pairs) : k \in 0..MaxFaults} : \A p, q \in F : p[1] = q[1] => p = q}
 Script(F) == [s \in Slots |-> IF \E p \in F : p[1] = s THEN (CHOOSE p \in F : p[1] = s)[2] ELSE "ok"]
@@ -20,7 +20,7 @@ Attempt(f) ==
   /\ attempts < MaxAttempts
   /\ attempts' = attempts + 1
   /\ hist' = Append(hist, {[slot |-> s[1], b |-> s[2], f |-> f[s]] : s \in {x \in Slots : f[x] # "ok"}})
-  /\ LET r == AttemptResult([final |-> final, part |-> part, man |-> man], f) IN
+  /\ LET r == AttemptResult([final |-> final, part |-> part, man |-> man], f, Pre = "dup") IN
        /\ final' = r.final /\ part' = r.part /\ man' = r.man /\ outcomes' = Append(outcomes, r.outcome)
 Next == \E f \in Scripts : Attempt(f)
 Spec == Init /\ [][Next]_vars
@@ -34,7 +34,7 @@ NoBadBlobLeft == \A b \in Blobs : final[b] # "bad"
 NeverDangling == man = "new" => \A b \in Blobs : final[b] = "good"
 \* whatever happened before, an attempt without faults succeeds
 RetryCanSucceed ==
-  LET st == Fetch([final |-> final, part |-> part, fetched |-> {}, failed |-> FALSE], CleanScript, 1)
+  LET st == Fetch([final |-> final, part |-> part, fetched |-> {}, failed |-> FALSE], CleanScript, Pre = "dup")
   IN ~st.failed /\ \A b \in Blobs : st.final[b] = "good"
 
 Emit == (attempts = MaxAttempts) => PrintT(ToJson(hist))
